@@ -429,6 +429,7 @@ def run_check(P, tier, seed, replay=None):
     D = []   # (case, impl_obs, model_obs)
     impl_only = not ok_exe
     skipped = [0]
+    model_unavailable = [0]
 
     def evaluate(cases):
         """run both sides, return list of (case, impl, model, pred_failure|None, disagree:bool)"""
@@ -441,6 +442,12 @@ def run_check(P, tier, seed, replay=None):
                 continue
             if m == "SKIPPED-AFTER-FATAL":
                 m = None          # no model observation for this case: the predicate alone judges it
+            elif m is not None and (m.startswith("TIMEOUT") or m.startswith("ABORT rc=") or m == "SHORT-OUTPUT"):
+                # the MODEL executable hung or crashed on this case: that says nothing about /repo (no change of the
+                # code can influence it); the case is judged by the predicate alone and counted, and a check whose
+                # model fails on more than a handful of cases reports a broken correspondence below
+                model_unavailable[0] += 1
+                m = None
             why = P.predicate(c, i)
             if not why and m is not None:
                 # optional second predicate that may also look at what the model side printed (e.g. the
@@ -490,6 +497,9 @@ def run_check(P, tier, seed, replay=None):
                     F.append((c, i, why))
                 elif dis:
                     D.append((c, i, m))
+
+    if model_unavailable[0] > max(20, evaluations // 100):
+        tie_broken.append("the model executable hung or crashed on %d of %d cases" % (model_unavailable[0], evaluations))
 
     # S5
     known = [k for k in load_known() if k.get("property") == pid and k.get("status") == "known"]
@@ -575,6 +585,7 @@ def run_check(P, tier, seed, replay=None):
         "disagreements_checked": evaluations,
         "model_vs_impl_disagreements": len(D),
         "cases_outside_model_domain": skipped[0],
+        "cases_where_the_model_executable_failed": model_unavailable[0],
         "impl_property_failures": len(F),
         "known_findings_seen": res.known,
         "input_distribution": dist,
